@@ -319,6 +319,9 @@ def check_frame(f, session_known, cids):
             return "connection id not the one granted by the target"
         if dl < 2:
             return "connected data without sequence count"
+        mr = b[p + 4 + 2:]
+        if len(mr) < 2 or 2 + 2 * mr[1] > len(mr):
+            return "connected data: request path of %d words does not fit the %d bytes after the sequence count" % (mr[1] if len(mr) > 1 else -1, len(mr))
     return None
 
 
@@ -368,7 +371,8 @@ def gen_gm(rng, connected=None):
             return bytes(rng.getrandbits(8) for _ in range(rng.choice([1, 2, 4])))
         return rng.getrandbits(rng.choice([8, 16, 32]))
     a = {"service": rng.choice([0x01, 0x0E, 0x10, 0x4C, 0x03, 0x32, rng.randrange(1, 128)]),
-         "class_code": idv(), "instance": idv(), "name": rng.choice(["g", "my_msg"]), "connected": connected}
+         "class_code": idv(), "instance": idv() if rng.random() < 0.85 else rng.choice([0, b"\x00"]),   # instance 0 = the class itself
+         "name": rng.choice(["g", "my_msg"]), "connected": connected}
     if rng.random() < 0.5:
         a["attribute"] = idv() if rng.random() < 0.8 else rng.choice([0, b""])
     n = rng.choice([0, 0, 1, 2, 3, 7, 8, 33, 64, 250])
@@ -456,7 +460,7 @@ def flush(ctx, model, lines, pend):
     pend.clear()
 
 
-def run_c17(ctx, model):
+def run_c17(ctx, model, focus="C17"):
     """connected histories crossing the 16-bit wrap: sequence counts on the wire.
     quick: the counter is advanced to just before the wrap and 600 messages of mixed kinds cross it;
     thorough: a full 140 000-message history from a fresh driver."""
@@ -479,6 +483,25 @@ def run_c17(ctx, model):
     log = model.ask("target.log")
     d.close()
     frames = [f for f in shared.frames if f[:2] == b"\x70\x00"]
+    if focus == "C11":
+        # every connected frame of the history, also the ones around the wrap of the 16-bit counter: header + address item +
+        # connected data item = sequence count followed by exactly the message-router request that was asked for
+        want_mr = b"\x01\x02\x20\x70\x24\x01"
+        ctx.case("wrap-history-frames", ("wrapframes", n, skip))
+        ctx.count("frames-checked", len(frames))
+        for i, f in enumerate(frames):
+            why = None
+            if len(f) != 24 + 20 + 2 + len(want_mr) or struct.unpack_from("<H", f, 2)[0] != len(f) - 24:
+                why = "frame of %d bytes, expected %d" % (len(f), 24 + 20 + 2 + len(want_mr))
+            elif struct.unpack_from("<HH", f, 40) != (0xB1, 2 + len(want_mr)):
+                why = "connected data item header %s" % f[40:44].hex()
+            elif f[46:] != want_mr:
+                why = "connected data is not sequence count + request: %s" % f[44:].hex()
+            if why:
+                ctx.violation("malformed-frame:connected-data", {"ops": "open, counter advanced by %d, %d connected generic messages" % (skip, n),
+                                                                 "frame_index": i, "frame": f.hex()}, why)
+                break
+        return
     seqs = [struct.unpack_from("<H", f, 44)[0] for f in frames]
     ctx.case("driver-seq", ("wrap", n, skip))
     ctx.evaluations += n
